@@ -21,6 +21,7 @@ import io
 import json
 import os
 import random
+import signal
 import sys
 import time
 
@@ -63,6 +64,26 @@ def case_hash(case):
     return hashlib.sha1(s.encode()).hexdigest()[:16]
 
 
+class CaseCpuBudget(BaseException):
+    """raised from the SIGVTALRM handler armed by Ctx.cases(): one case burnt CASE_CPU_BUDGET_S seconds of *CPU
+    time of this process* (ITIMER_VIRTUAL; independent of machine load), four to five orders of magnitude more than
+    a legitimate case"""
+
+
+CASE_CPU_BUDGET_S = 150
+
+
+def _library_frame(frame):
+    """innermost frame of the code under test in the interrupted stack, as 'file.py:function'"""
+    f = frame
+    while f is not None:
+        fn = os.path.realpath(f.f_code.co_filename)
+        if fn.startswith(REPO + os.sep):
+            return fn[len(REPO) + 1:].replace("onl/", "", 1) + ":" + f.f_code.co_name
+        f = f.f_back
+    return None
+
+
 class Ctx:
     """What a shard reports through.  Everything in here is measured."""
 
@@ -81,15 +102,48 @@ class Ctx:
         self.t0 = time.time()
         self.budget_s = None
         self.stop = False
+        self.only = None           # replay of one case index
+        self.current = None
+        self.fired = 0
+        self.emergency = None      # set by the worker: write the result file and leave
 
     def cases(self, n):
         """case indices of this shard; ends early once a no-progress violation was recorded
         (every further case would burn its whole CPU budget again)"""
-        for i in range(n):
-            if self.stop or self.out_of_time():
-                self.notes.append(f"shard {self.shard} stopped early after {i} of {n} cases")
-                return
-            yield i
+        try:
+            for i in range(n):
+                if self.stop or self.out_of_time():
+                    self.notes.append(f"shard {self.shard} stopped early after {i} of {n} cases")
+                    return
+                if self.only is not None and i != self.only:
+                    continue
+                self.current = i
+                self._arm()
+                c0 = time.process_time()
+                yield i
+                self.peak("case_cpu_s_max", round(time.process_time() - c0, 3))
+        finally:
+            signal.setitimer(signal.ITIMER_VIRTUAL, 0)
+
+    def _arm(self):
+        """per-case CPU budget for every check (the network harness arms its own, tighter one inside Net.run and
+        disarms it afterwards; the next case re-arms this one). The violation is recorded in the handler itself, so
+        it survives whatever catches the exception on its way up (Process._resume catches BaseException)."""
+        def on_budget(signum, frame):
+            where = _library_frame(frame)
+            self.fired += 1
+            case = {"case_index": self.current, "shard": self.shard, "nshards": self.nshards, "seed": self.seed}
+            if where is None:
+                self.violation("INCONCLUSIVE-harness-cpu-budget", "a case exhausted its CPU budget outside the code under test", None, case)
+                self.stop = True
+            else:
+                self.violation(f"no-progress:cpu-budget-exhausted@{where}",
+                               f"one case burnt {CASE_CPU_BUDGET_S}s of CPU inside the code under test without finishing", {"frame": where}, case)
+            if self.fired > 24 and self.emergency:
+                self.emergency()
+            raise CaseCpuBudget(where or "harness")
+        signal.signal(signal.SIGVTALRM, on_budget)
+        signal.setitimer(signal.ITIMER_VIRTUAL, CASE_CPU_BUDGET_S, 5.0)
 
     # -- case bookkeeping -------------------------------------------------
     def rng(self, *key):
